@@ -117,6 +117,9 @@ func Check(eng typed.Engine, s *rs.Schema, c Case) (fs []core.Finding, outcome s
 	wantBytes, _ := ref.CborEncode(repr)
 	var nodes []datamodel.Node
 	for _, route := range routes {
+		if route == "type-builder" && s.ComplexKeys(t) {
+			continue // how a struct key is supplied at type level is outside the enumerated space (rs.ComplexKeys)
+		}
 		n, err, pan := buildRoute(eng, s, t, v, repr, route)
 		if pan != "" {
 			fs = append(fs, core.F(site+"/"+route+"/panic("+core.Class(pan)+")", "%s: %s", where, pan))
@@ -163,7 +166,11 @@ func Check(eng typed.Engine, s *rs.Schema, c Case) (fs []core.Finding, outcome s
 	}
 	// across implementations: the views are equal to, and copy into, a generic node holding the same value
 	if len(nodes) > 0 {
-		fs = append(fs, crossImpl(site, where, nodes[0], v, repr)...)
+		tv := v
+		if s.ComplexKeys(t) {
+			tv = ref.Absent() // the type-level view has struct-kinded keys: no generic node holds the same value
+		}
+		fs = append(fs, crossImpl(site, where, nodes[0], tv, repr)...)
 	}
 	// the routes give the same node (typed maps compared up to entry order: codecs canonicalise it)
 	if hasUnsortedTypedMap(s, t, v) {
@@ -274,7 +281,16 @@ func sortTypedMaps(s *rs.Schema, t *rs.Type, v ref.Val, less func(a, b string) b
 		for _, e := range v.M {
 			o.M = append(o.M, ref.Entry{K: e.K, V: sortTypedMaps(s, s.T(t.ValType), e.V, less)})
 		}
-		sort.SliceStable(o.M, func(i, j int) bool { return less(o.M[i].K, o.M[j].K) })
+		// the codec orders the entries by the key as it is written: the key's representation string
+		rk := func(k string) string {
+			if t.KeyType != "" && t.KeyType != "String" && s.T(t.KeyType).Kind == rs.TEnum {
+				if r, ok := s.Repr(s.T(t.KeyType), ref.Str(k)); ok && r.K == ref.KString {
+					return r.S
+				}
+			}
+			return k
+		}
+		sort.SliceStable(o.M, func(i, j int) bool { return less(rk(o.M[i].K), rk(o.M[j].K)) })
 		return o
 	case rs.TAny:
 		return ref.SortMaps(v, less)
@@ -283,7 +299,8 @@ func sortTypedMaps(s *rs.Schema, t *rs.Type, v ref.Val, less func(a, b string) b
 }
 
 func hasUnsortedTypedMap(s *rs.Schema, t *rs.Type, v ref.Val) bool {
-	return !ref.Equal(sortTypedMaps(s, t, v, ref.LessLenFirst), v)
+	// (in the order of both codecs: dag-cbor sorts length-first, dag-json bytewise)
+	return !ref.Equal(sortTypedMaps(s, t, v, ref.LessLenFirst), v) || !ref.Equal(sortTypedMaps(s, t, v, ref.LessBytewise), v)
 }
 
 func rejectClass(msg string) string {
@@ -346,6 +363,9 @@ func CheckRoutes(eng typed.Engine, s *rs.Schema, c Case) (fs []core.Finding, run
 	}
 	site := eng.Name() + "/" + strategy(t)
 	for _, lvl := range []string{"type", "repr"} {
+		if lvl == "type" && s.ComplexKeys(t) {
+			continue
+		}
 		tree := s.FeedType(t, v)
 		if lvl == "repr" {
 			tree = repr
